@@ -80,6 +80,8 @@ def _run_scenario(sc, fault, env, res):
         subj.size_fail = make_exc(fault[1])
     elif fault and fault[0] == "bad-args":
         pass  # see *rargs* below
+    elif fault and fault[0] == "pad":
+        pass  # see *pad_obj* below
     elif fault:
         subj.fail_at = (fault[0], make_exc(fault[1]))
     # render arguments of an unrelated render class: the operation is refused (whatever it
@@ -89,6 +91,23 @@ def _run_scenario(sc, fault, env, res):
         from term_image.renderable import RenderArgs
 
         rargs = RenderArgs(S.Other, S.OtherArgs(3))
+    # a frame that cannot be padded (the k-th use of the padding fails): an error of the
+    # iteration like a failing render
+    pad_obj = ExactPadding()
+    if fault and fault[0] == "pad":
+        uses = [0]
+        pad_exc = make_exc(fault[2])
+
+        class FailingPad(ExactPadding):
+            __slots__ = ()
+
+            def pad(self, render, render_size):
+                uses[0] += 1
+                if uses[0] == fault[1]:
+                    raise pad_exc
+                return super().pad(render, render_size)
+
+        pad_obj = FailingPad(1, 0, 1, 1)
     kept = []  # tokens handed over with finalize=False (caller keeps ownership)
     kept_data = []
     errs = []
@@ -137,7 +156,7 @@ def _run_scenario(sc, fault, env, res):
             for f in subj:
                 pass
         elif kind in ("iter_full", "iter_close", "iter_drop", "iter_seek"):
-            it = RenderIterator(subj, rargs, ExactPadding(), sc["loops"], sc["cache"])
+            it = RenderIterator(subj, rargs, pad_obj, sc["loops"], sc["cache"])
             steps = 10**6 if kind == "iter_full" else sc["steps"]
             done = False
             for i in range(steps):
@@ -347,6 +366,7 @@ def _run_scenario(sc, fault, env, res):
     # the injected exception object (and through its traceback the frames of the failed
     # operation) must not be kept alive by the harness
     subj.fail_at = subj.size_fail = None
+    pad_obj = pad_exc = None
     # caller-owned data must still be alive and un-finalized; then the caller finalizes it
     for rd in kept_data:
         if rd.finalized:
@@ -430,6 +450,8 @@ def run_shard(shard, env):
             faults = [(k, e) for k in range(1, K + 1) for e in EXCS] + [("size", "RuntimeError"), ("size", "AttributeError"), ("too-small",)]
             if sc["kind"] in ("render", "draw_still", "draw_anim", "iter_full", "iter_close", "iter_drop", "iter_seek"):
                 faults.append(("bad-args",))
+            if sc["kind"] in ("iter_full", "iter_close", "iter_seek"):
+                faults += [("pad", k, e) for k in range(1, min(K, 5) + 1) for e in ("RuntimeError", "RenderError")]
             if msg:
                 res.violation("C10:fault-free:" + sc["kind"], msg + " [%s]" % sc, dict(sc=sc, fault=None))
             for fault in faults:
